@@ -80,7 +80,10 @@ func (r *Repository) GetEntriesInTree(treeID Hash) ([]TreeEntry, error) {
 	// of being on Ubuntu 22.04. 22.04 is still widely used in WSL2 environments.
 	// So, we're removing --format and parsing the output differently to handle
 	// the extra information for each entry we don't need.
-	stdOut, err := r.executor("ls-tree", treeID.String()).executeString()
+	// The output is NUL-delimited (-z) so that path names are read verbatim:
+	// without it, Git quotes names with "unusual" characters and separates
+	// records with newlines, which a name may contain.
+	stdOut, err := r.executor("ls-tree", "-z", treeID.String()).executeRaw()
 	if err != nil {
 		return nil, fmt.Errorf("unable to enumerate items in tree '%s': %w", treeID.String(), err)
 	}
@@ -89,33 +92,51 @@ func (r *Repository) GetEntriesInTree(treeID Hash) ([]TreeEntry, error) {
 		return nil, nil // alternatively, just check if treeID is empty tree?
 	}
 
-	lines := strings.Split(stdOut, "\n")
-	entries := make([]TreeEntry, 0, len(lines))
-	for _, line := range lines {
-		// Without --format, the output is in the following format:
+	records := splitNULRecords(stdOut)
+	entries := make([]TreeEntry, 0, len(records))
+	for _, record := range records {
+		// Without --format, each record is in the following format:
 		// <mode> SP <type> SP <object> TAB <file>
 		// From: https://git-scm.com/docs/git-ls-tree/2.34.1#_output_format
-
-		fields := strings.Split(line, " ")
-		// fields[0] is <mode> -- discard
-		// fields[1] is <type> -- blob or tree
-		// fields[2] is <object> TAB <file>
-		objectAndName := strings.Split(fields[2], "\t")
-
-		hash, err := NewHash(objectAndName[0])
+		objectType, objectID, name, err := parseLsTreeRecord(record)
 		if err != nil {
-			return nil, fmt.Errorf("invalid Git ID '%s' for path '%s': %w", objectAndName[0], objectAndName[1], err)
+			return nil, err
+		}
+
+		hash, err := NewHash(objectID)
+		if err != nil {
+			return nil, fmt.Errorf("invalid Git ID '%s' for path '%s': %w", objectID, name, err)
 		}
 
 		kind := gitstore.KindBlob
-		if fields[1] == "tree" {
+		if objectType == "tree" {
 			kind = gitstore.KindSubtree
 		}
 
-		entries = append(entries, TreeEntry{Path: objectAndName[1], ID: hash, Kind: kind})
+		entries = append(entries, TreeEntry{Path: name, ID: hash, Kind: kind})
 	}
 
 	return entries, nil
+}
+
+// splitNULRecords splits NUL-delimited Git output into its records.
+func splitNULRecords(output string) []string {
+	records := strings.Split(output, "\x00")
+	if len(records) != 0 && records[len(records)-1] == "" {
+		records = records[:len(records)-1]
+	}
+	return records
+}
+
+// parseLsTreeRecord parses one `<mode> SP <type> SP <object> TAB <file>` record
+// of `git ls-tree -z`. The file name is everything after the first TAB.
+func parseLsTreeRecord(record string) (string, string, string, error) {
+	metadata, name, hasName := strings.Cut(record, "\t")
+	fields := strings.Split(metadata, " ")
+	if !hasName || len(fields) != 3 {
+		return "", "", "", fmt.Errorf("unexpected ls-tree output '%s'", record)
+	}
+	return fields[1], fields[2], name, nil
 }
 
 // GetAllFilesInTree returns all filepaths and the corresponding blob hashes in
@@ -126,7 +147,8 @@ func (r *Repository) GetAllFilesInTree(treeID Hash) (map[string]Hash, error) {
 	// of being on Ubuntu 22.04. 22.04 is still widely used in WSL2 environments.
 	// So, we're removing --format and parsing the output differently to handle
 	// the extra information for each entry we don't need.
-	stdOut, err := r.executor("ls-tree", "-r", treeID.String()).executeString()
+	// See GetEntriesInTree for why the output is NUL-delimited.
+	stdOut, err := r.executor("ls-tree", "-r", "-z", treeID.String()).executeRaw()
 	if err != nil {
 		return nil, fmt.Errorf("unable to enumerate all files in tree: %w", err)
 	}
@@ -135,30 +157,20 @@ func (r *Repository) GetAllFilesInTree(treeID Hash) (map[string]Hash, error) {
 		return nil, nil // alternatively, just check if treeID is empty tree?
 	}
 
-	entries := strings.Split(stdOut, "\n")
-	if len(entries) == 0 {
-		return nil, nil
-	}
-
 	files := map[string]Hash{}
-	for _, entry := range entries {
-		// Without --format, the output is in the following format:
-		// <mode> SP <type> SP <object> TAB <file>
-		// From: https://git-scm.com/docs/git-ls-tree/2.34.1#_output_format
-
-		entrySplit := strings.Split(entry, " ")
-		// entrySplit[0] is <mode> -- discard
-		// entrySplit[1] is <type> -- discard
-		// entrySplit[2] is <object> TAB <file> -- keep
-		entrySplit = strings.Split(entrySplit[2], "\t")
-
-		// <object> is really the object ID
-		hash, err := NewHash(entrySplit[0])
+	for _, record := range splitNULRecords(stdOut) {
+		_, objectID, name, err := parseLsTreeRecord(record)
 		if err != nil {
-			return nil, fmt.Errorf("invalid Git ID '%s' for path '%s': %w", entrySplit[0], entrySplit[1], err)
+			return nil, err
 		}
 
-		files[entrySplit[1]] = hash
+		// <object> is really the object ID
+		hash, err := NewHash(objectID)
+		if err != nil {
+			return nil, fmt.Errorf("invalid Git ID '%s' for path '%s': %w", objectID, name, err)
+		}
+
+		files[name] = hash
 	}
 
 	return files, nil
@@ -465,10 +477,11 @@ func (t *TreeBuilder) writeTree(entries []treeNode) (Hash, error) {
 			// TODO: support entryBlob's permissions here
 			input += "100644 blob " + entry.gitID.String() + "\t" + entry.name
 		}
-		input += "\n"
+		// NUL-terminated (-z) so that names are written verbatim
+		input += "\x00"
 	}
 
-	stdOut, err := t.repo.executor("mktree").withStdIn(bytes.NewBufferString(input)).executeString()
+	stdOut, err := t.repo.executor("mktree", "-z").withStdIn(bytes.NewBufferString(input)).executeString()
 	if err != nil {
 		return ZeroHash, fmt.Errorf("unable to write Git tree: %w", err)
 	}
